@@ -10,7 +10,21 @@ import rx
 import wports
 import mdast
 
-ATOMS = G.TAGS + G.ATOMS + ["{% f a=1 %}{% /f %}", "<!-- a --><!-- /a -->", "{{ x }}{{ y }}", "[long link text here](http://example.com/a/b?c=d e)", "`a  b`"]
+# tags of every kind, single and as an open/close pair, whose bodies hold the characters their own delimiters are made of
+# (a pattern that excludes such a character from the body would no longer keep the construct in one piece)
+def _nasty_tags():
+    out = []
+    bodies = ["a b", "a-b c", "x % 2 y", "a } b", "n # 1 z", "a > b c", "if a -- b", "v | f('a b')", "50% off now", "a - b - c"]
+    for o, c in (("{%", "%}"), ("{#", "#}"), ("{{", "}}"), ("<!--", "-->")):
+        for b in bodies:
+            if c in b or (o == "<!--" and "--" in b):
+                continue
+            out.append(f"{o} {b} {c}")
+            out.append(f"{o} t {b} {c}{o} /t {c}")
+    return out
+
+
+ATOMS = G.TAGS + G.ATOMS + _nasty_tags() + ["{% f a=1 %}{% /f %}", "<!-- a --><!-- /a -->", "{{ x }}{{ y }}", "[long link text here](http://example.com/a/b?c=d e)", "`a  b`"]
 # constructs with a sentence end inside them (semantic mode must not break there)
 SENT_ATOMS = ["`the quick brown foxes. Then the lazy dog`", "{% include the quick brown foxes. Then more %}", "[the quick brown foxes. Then the lazy dog](http://x.y/z)",
               "<span title=\"the quick brown foxes. Then the dog\">", "<!-- the quick brown foxes. Then the dog -->"]
